@@ -3,5 +3,5 @@ CONSTANTS
   Impl = "clone"
   Inputs <- ModelInputs
   MaxSteps = 3
-INVARIANTS Emit DependsOnArgOnly ErrTextOfThisArg FreshAcrossCalls ResultsAreNew
+INVARIANTS Emit DependsOnArgOnly ErrTextOfThisArg ErrTextsAreValues FreshAcrossCalls ResultsAreNew
 CHECK_DEADLOCK FALSE
